@@ -219,7 +219,11 @@ def explore(c, tier):
     uniq.append(libgen.wide_library(sets["PyRows"], wrap_python=True, wrap_fortran=False, wrap_c=False))
     uniq.append(libgen.wide_library(sets["LuaRows"], wrap_lua=True, wrap_fortran=False))
     uniq.append(libgen.wide_library(F_CFI=True))
+    # one library per row with nothing else in it (a forgotten helper / include request is not masked)
+    uniq += libgen.solo_libraries()
     if tier == "thorough":
+        uniq += libgen.solo_libraries(F_CFI=True)
+        uniq += libgen.solo_libraries(sets["PyRows"], wrap_python=True, wrap_fortran=False)
         uniq.append(libgen.wide_library(debug=False, doxygen=False, show_splicer_comments=False, line=40))
         uniq.append(libgen.wide_library(sets["PyRows"], wrap_python=True, wrap_fortran=True, F_CFI=True, literalinclude=True, line=132))
     results = [None] * len(uniq)
@@ -235,6 +239,7 @@ def explore(c, tier):
                 with common.scratch("c05-") as d:
                     res2 = libgen.build(d, rest)
                 res2["problems"] = res["problems"] + res2["problems"]
+                res2["retried_without_cfi_conflict"] = True
                 return i, res2
         return i, res
     with cf.ThreadPoolExecutor(max(2, common.NCPU // 2)) as ex:
@@ -251,6 +256,25 @@ def explore(c, tier):
         cover["language:" + lib["language"]] = cover.get("language:" + lib["language"], 0) + 1
         for stage, fn, txt in res["problems"]:
             key = classify(lib, stage, fn, txt)
+            # one recorded finding has many faces (KNOWN_FINDINGS.txt "cfi-clone-only"): with F_CFI a function with a
+            # character/string argument or result gets only the CFI clone.  It is recognised by its cause -- every
+            # function the diagnostic names (or, when Shroud itself stops, some function of the library) combines
+            # a string with a vector argument / pointer result with extent -- not by the compiler's wording.
+            if lib["opts"].get("F_CFI"):
+                confl = {i for i, f in enumerate(lib["funcs"], 1) if libgen.cfi_conflict(f)}
+                names = {}
+                nm = {}
+                for i, f in enumerate(lib["funcs"], 1):
+                    nm[i] = nm[f["of"]] if f["kind"] == "overload" and f.get("of") in nm else "g%d" % i
+                    names.setdefault(nm[i], set()).add(i)
+                import re as _re
+                mentioned = set(_re.findall(r"\b(?:SUB_)?(?:ns1_)?(g\d+)(?:_\w+)?\(", txt)) | \
+                    set(_re.findall(r"\b(g\d+)(?:_\d+)?(?:_cfi)?\b", txt if stage == "compile-fortran" else ""))
+                if stage == "shroud" and confl and res.get("retried_without_cfi_conflict"):
+                    key = "cfi-clone-only:shroud"
+                elif stage in ("compile", "compile-fortran") and mentioned and \
+                        all(names.get(m, set()) & confl for m in mentioned):
+                    key = "cfi-clone-only:" + stage
             c.violation(key, "generated file %s fails at %s: %s" % (fn, stage, txt.strip()[:400]),
                         {"library": lib, "stage": stage, "file": fn, "diagnostic": txt})
         if res["trace"]:
